@@ -5,6 +5,11 @@ import (
 	"fmt"
 	"os"
 	"testing"
+
+	gnarkLogger "github.com/consensys/gnark/logger"
+	"github.com/rs/zerolog"
+
+	"worldcoin/gnark-mbu/logging"
 )
 
 // TestReplay re-runs one saved failing case directly, bypassing rapid.
@@ -35,4 +40,15 @@ func TestReplay(t *testing.T) {
 		t.Fatalf("replayed violation sig=%s: %s", res.Sig, res.Msg)
 	}
 	fmt.Printf("replay: case no longer violates %s\n", rf.Property)
+}
+
+// TestMain silences the code under test's info-level logging (it would
+// otherwise dominate the check logs) unless VERIF_VERBOSE=1.
+func TestMain(m *testing.M) {
+	if os.Getenv("VERIF_VERBOSE") != "1" {
+		l := logging.Logger()
+		*l = l.Level(zerolog.WarnLevel)
+		gnarkLogger.Set(*l)
+	}
+	os.Exit(m.Run())
 }
